@@ -72,6 +72,10 @@ func runReal(in []byte, report bool, oneByte bool) outcome {
 		}
 		var list []string
 		out, err := imports.ReadImports(rd, report, &list)
+		// what was returned stays what it is: a later call (here on the same goroutine, so that any per-goroutine or pooled
+		// storage comes round again) must not reach into an earlier result
+		var decoy []string
+		imports.ReadImports(strings.NewReader("package decoy\n\nimport (\n\t\"decoy/one\"\n\t\"decoy/two\"\n)\n\nvar decoy = 1\n"), false, &decoy)
 		o.Out = out
 		o.Err = classify(err)
 		if err != nil {
